@@ -36,6 +36,9 @@ def run(ctx, report):
     report.section("breaks", breaks, ctx, report)
     from . import reader_doc_fold, srt_doc_fold, dfxp_reader_fold
     report.section("generated DFXP documents", dfxp_reader_fold.run, ctx, report, {"text": ("R-DOC-TEXT", "1")})
+    from . import sami_reader_fold
+    report.section("generated SAMI documents", sami_reader_fold.run, ctx, report, {
+        "cues": ("R-DOC-CUES", "1"), "text": ("R-DOC-TEXT", "1")})
     report.section("generated documents", reader_doc_fold.run, ctx, report, {
         "cues": ("R-DOC-CUES", "3", "no payload line is taken for structure: one caption per cue"),
         "text": ("R-DOC-TEXT", "3", "each caption's lines are what a conformant consumer displays (references decoded "
